@@ -249,6 +249,10 @@ func H_C09_pointer_rule() {
 	n := vParam("n")
 	at := vParam("at")
 	data := vBytes("data", n)
+	if at+1 >= n {
+		vCover("end")
+		return
+	}
 	vAssume(data[at]&0xC0 == 0xC0)
 	p := int(data[at]&0x3F)<<8 | int(data[at+1])
 	name, next, err := DecodeDomainName(data, at)
